@@ -2,7 +2,9 @@
 package hub
 
 import (
+	"fmt"
 	"os"
+	"runtime/debug"
 	"time"
 
 	"github.com/DataDog/datadog-go/v5/statsd"
@@ -42,5 +44,29 @@ func OpenCoreEnv(env *conf.Config) *Core {
 }
 
 func (c *Core) Close() error { return c.Store.Close() }
+
+// TryOpenCore is OpenCore that turns a panic during assembly into an error
+// (with the stack) and does not leak an open database.
+func TryOpenCore(dir string) (core *Core, err error) {
+	env := Env(dir)
+	var st *server.Store
+	defer func() {
+		if p := recover(); p != nil {
+			err = fmt.Errorf("panic: %v\n%s", p, debug.Stack())
+			core = nil
+			if st != nil {
+				func() {
+					defer func() { _ = recover() }()
+					_ = st.Close()
+				}()
+			}
+		}
+	}()
+	_ = os.MkdirAll(env.StoreLocation, 0o755)
+	st = server.NewStore(env, &statsd.NoOpClient{})
+	eb := server.NoOpBus()
+	dsm := server.NewDsManager(env, st, eb)
+	return &Core{Env: env, Store: st, Dsm: dsm, Bus: eb}, nil
+}
 
 var _ = time.Second
